@@ -53,6 +53,15 @@ def build(case):
     arr = synth.make_arrays(mk, tr, n_app=n, n_ret=n,
                             x_start=case.get("x_start", XSTART),
                             depth=DEPTH, nonuniform=case["nonuniform"])
+    if case.get("jitter"):
+        # "any sampling": tip positions that are oriented as a whole but
+        # locally unordered (position noise of a few sampling steps) - the
+        # force below still follows the model exactly at every sample
+        x = arr["tip position"]
+        step = abs(x[1] - x[0])
+        rs = np.random.RandomState(17)
+        arr["tip position"] = x + case["jitter"] * step * rs.uniform(
+            -1, 1, x.size)
     # the curve follows the *documented* model: generated with the
     # independent literature reference, not with nanite's own function
     pp = {k: v for k, v in tr.items()
@@ -312,7 +321,19 @@ def cases(tier):
                      "segment": 1 - seg},
                     {"E": 300.0, "cp": 0.0, "baseline": -1e-10,
                      "segment": seg}]})
-    return cs + sub + short + seqs
+    jit = []
+    seen = set()
+    for c in cs:
+        if c["noise"] == 0.0 and c["method"] == "leastsq" \
+                and not c["nonuniform"] and c["corner"] == [0, 0, 0]:
+            d = dict(c)
+            d.update(n=300, jitter=4.0)
+            key = repr(sorted((k, repr(v)) for k, v in d.items()
+                              if k != "kw_order"))
+            if key not in seen:
+                seen.add(key)
+                jit.append(d)
+    return cs + sub + short + seqs + jit
 
 
 def replay(doc):
